@@ -32,7 +32,9 @@ Changed(old, new) ==
 
 BadObjs(reg, ev) == {i \in DOMAIN ev.objs : ev.objs[i].id \in DOMAIN reg /\ Changed(reg[ev.objs[i].id], ev.objs[i]) # "-"}
 
-Clause(reg, ev) == IF ev.e = "snap" /\ BadObjs(reg, ev) # {} THEN "C09:input-modified" ELSE "ok"
+\* "given": the list object handed to a step, as sequences of object ids before and after the step ran
+Clause(reg, ev) == IF ev.e = "snap" /\ BadObjs(reg, ev) # {} THEN "C09:input-modified"
+                   ELSE IF ev.e = "given" /\ ev.before # ev.after THEN "C09:input-modified" ELSE "ok"
 Attrs(reg, ev) ==
     IF ev.e = "snap" /\ BadObjs(reg, ev) # {}
     THEN LET i == SMin(BadObjs(reg, ev)) IN <<ev.objs[i].kind, Changed(reg[ev.objs[i].id], ev.objs[i]), Cfg.rep>>
